@@ -148,7 +148,7 @@ CLAIMED["C20"] = dict(
 
 CLAIMED["C17"] = dict(
     category="model_checking",
-    text="Deviation-bounded exhaustive schedule exploration of the real CompilerSession under shuttle's execution engine with a custom scheduler: salsa compiled in its shuttle mode (every lock, condvar and atomic inside salsa is a scheduling point), the session's DashMap shard locks replaced by a scheduler-aware lock, the key-space counter made visible through the zydeco_verif hook. Ten closed harnesses (snapshot readers vs owner edits on the same and on different roots, edit + revert, first load racing an overlay, independent IdAllocators racing an analysis, externally resolved programs through check_resolved, per-root facts recomputed after the single-entry arena memo was evicted by another root), each explored for ALL schedules with at most 1 preemption (2 for the two-thread harnesses) in the quick tier — 0.2M executions, each in a forked child of one warmed-up parent, each replayed deviation checked for divergence — against a sequential fresh-session oracle per snapshot; thorough: one more preemption, capped (cap and pending count reported). Second part (engine zyv): explicit-state exploration of the language server's refresh/commit protocol — every protocol-valid history of <= 6 events (didOpen / didChange / didClose / let the oldest or second-oldest unfinished handler commit / documentSymbol request) on the real cajun::Cajun handlers, polled by the harness on a current-thread tokio runtime (10.7k histories quick), oracle = every answer lists the symbols of the text the document has at that moment. Says nothing above the preemption bound or the history depth, about weak memory, or about tokio's own scheduler.",
+    text="Deviation-bounded exhaustive schedule exploration of the real CompilerSession under shuttle's execution engine with a custom scheduler: salsa compiled in its shuttle mode (every lock, condvar and atomic inside salsa is a scheduling point), the session's DashMap shard locks replaced by a scheduler-aware lock, the key-space counter made visible through the zydeco_verif hook. Ten closed harnesses (snapshot readers vs owner edits on the same and on different roots, edit + revert, first load racing an overlay, independent IdAllocators racing an analysis, externally resolved programs through check_resolved, per-root facts recomputed after the single-entry arena memo was evicted by another root), each explored for ALL schedules with at most 1 preemption (2 for the two-thread harnesses) in the quick tier — 0.2M executions, each in a forked child of one warmed-up parent, each replayed deviation checked for divergence — against a sequential fresh-session oracle per snapshot; thorough: one more preemption, capped (cap and pending count reported). Second part (engine zyv): explicit-state exploration of the language server's refresh/commit protocol — every protocol-valid history of <= 6 events (didOpen / didChange / didSave / didClose / let the oldest or second-oldest unfinished handler commit / documentSymbol request) on the real cajun::Cajun handlers, polled by the harness on a current-thread tokio runtime (48k histories quick), oracle = every answer lists the symbols of the text the document has at that moment. Says nothing above the preemption bound or the history depth, about weak memory, or about tokio's own scheduler.",
     design_ref="C17",
     note="Trusts shuttle's engine (one vendored line changed so that locks released while unwinding with salsa::Cancelled still wake their waiters), the vendored dashmap lock shim and the poisoning-tolerant salsa shim; code between two scheduling points runs atomically.",
     technique="stateless model checking of the implementation: exhaustive enumeration of thread schedules up to a preemption bound under a controlled scheduler",
